@@ -93,6 +93,7 @@ def getters_run(rng, n):
     cases, bad, stats = [], [], {'ok': 0, 'err': 0, 'err_partial': 0}
     for _ in range(n):
         data = gen_packet(rng)
+        PROGRESS['item'] = ['getters', data.hex()]
         p = SSHPacket(data)
         ops, got = [], []
         for _ in range(rng.randint(1, 8)):
@@ -234,6 +235,7 @@ async def agent_run(rng, n):
     for i in range(n):
         op = i % 3
         stream = gen_agent_stream(rng, op)
+        PROGRESS['item'] = ['agent', ['get_keys', 'query_extensions', 'sign'][op], stream.hex()]
         o = await agent_observe(op, stream)
         stats[o[0]] = stats.get(o[0], 0) + 1
         if o[0] == 'undoc':
@@ -374,6 +376,7 @@ def socks_run(rng, n):
     cases, raised_cases, stats = [], [], {'raised': 0, 'forwarded': 0, 'closed': 0, 'waiting': 0}
     inputs = list(SOCKS_FIXED) + [gen_socks(rng) for _ in range(n)]
     for chunks in inputs:
+        PROGRESS['item'] = ['socks', [c.hex() for c in chunks]]
         obs = socks_observe(chunks)
         if obs[0] is not None:
             stats['raised'] += 1
@@ -550,6 +553,7 @@ async def sftp_framing_run(rng, n, root):
     cases, bad, stats = [], [], {'ended': 0, 'waiting': 0, 'replies': 0}
     for _ in range(n):
         stream = gen_sftp_stream(rng)
+        PROGRESS['item'] = ['sftp stream', stream.hex()]
         sess = SftpSession(asyncssh.SFTPServer(StubChan(), chroot=root))
         if not await sess.init():
             raise RuntimeError('sftp bring-up: no FXP_VERSION')
@@ -768,7 +772,10 @@ def fuzz_imports(rng, n, only=None):
         except Exception as e:                          # noqa
             return [(only[0], d, type(e).__module__.split('.')[-1] + '.' + type(e).__name__)], {}
         return [], {}
-    corpus = key_corpus()
+    try:
+        from .c10_corpus import CORPUS as corpus
+    except ImportError:                                 # corpus file missing: fresh (non-reproducible) keys
+        corpus = key_corpus()
     inputs = []
     for hx in DER_SEEDS:
         inputs.append(bytes.fromhex(hx))
@@ -892,6 +899,7 @@ async def fuzz_sftp_server(rng, root, full):
                 await sess.init()
                 stats['ended'] += 1
             stats['requests'] += 1
+            PROGRESS['item'] = ['sftp request', label, body.hex()]
             rid = struct.unpack('>I', body[1:5])[0] if len(body) >= 5 else None
             fr = await sess.send(frame(body))
             if len(body) >= 5:
@@ -975,6 +983,7 @@ async def fuzz_sftp_client(rng, full):
         combos = rng.sample(combos, 90)
     jobs = [('init', i, None) for i in inits] + [('call', cn, rn) for cn, rn in combos]
     for kind, a, b in jobs:
+        PROGRESS['item'] = ['sftp client', kind, a if isinstance(a, str) else a.hex(), b]
         r, w = MemReader(), MemWriter()
         conn = ConnStub()
         stats['calls'] += 1
